@@ -24,12 +24,16 @@ class Ctx:
         self.assumptions = tuple(assumptions)  # ((predicate on a boolean term, truth value), ...)
 
     def with_removed(self, more):
-        return Ctx(self.body, self.removed | frozenset(more), self.T.params, self.T.captures, self.assumptions)
+        c = Ctx(self.body, self.removed | frozenset(more), self.T.params, self.T.captures, self.assumptions)
+        c.prog = getattr(self, "prog", None)
+        return c
 
     def assume_bool(self, pred, value):
         """world assumption: every boolean term accepted by `pred` has truth value `value`
         (used for tests that are stored in a variable / merged before being branched on)."""
-        return Ctx(self.body, self.removed, self.T.params, self.T.captures, self.assumptions + ((pred, value),))
+        c = Ctx(self.body, self.removed, self.T.params, self.T.captures, self.assumptions + ((pred, value),))
+        c.prog = getattr(self, "prog", None)
+        return c
 
     def _assumed(self, t):
         for pred, value in self.assumptions:
@@ -47,6 +51,17 @@ class Ctx:
         freshly built enum value of known variant(s) or a boolean constant on every reaching path."""
         rem = set()
         for bi, atom in self.atoms():
+            if self.assumptions and getattr(self, "prog", None) is not None:
+                # interprocedural: a tested local call that cannot succeed under the assumptions
+                rt = result_test(atom)
+                if rt is not None and rt[0][0] == "call":
+                    cb = _callee_body(self.prog, rt[0])
+                    if cb is not None and cb.key != self.body.key and cb.kind == "fn" and len(cb.blocks) < 120:
+                        cc = Ctx(cb, params={i + 1: a for i, a in enumerate(rt[0][2])}, assumptions=self.assumptions).settle()
+                        if not any(e["kind"] != "err" for e in exits(cc)):
+                            for tg in rt[1]:
+                                if tg not in rt[2]:
+                                    rem.add((bi, tg))
             if atom[0] == "variant":
                 subj = atom[1]
                 alts = subj[1] if subj[0] == "phi" else (subj,)
